@@ -227,6 +227,14 @@ func (wk *dWorker) opPipeline() {
 	var cands []*dCall
 	for _, c := range wk.calls {
 		if !c.released && !c.embargo && len(c.resCaps) > 0 {
+			if c.target != nil && c.target.Who == wk.mine().name {
+				// a call on a capability of my own side never touches the
+				// Conn; pipelining on its answer goes through
+				// server.queueCaller.PipelineSend, whose ReleaseArgs is not
+				// idempotent and crashes when the resolved target is an
+				// import (server/answer.go, property C12)
+				continue
+			}
 			cands = append(cands, c)
 		}
 	}
